@@ -12,7 +12,7 @@ import (
 func init() {
 	register(&Property{
 		ID: "C16", Level: "exploration", Builds: []string{"plain"},
-		Rule:        "cases = (a) generated bitmaps (all chunk archetypes at low / middle / top keys, 11 storage forms) x offsets d in {0,+-1,+-65535,+-65536,+-65537,+-k*65536,+-(2^32-1),random in (-2^32,2^32)} for AddOffset/AddOffset64 with the operand's raw storage hashed before/after and the result probed by mutations; (b) static Flip(b,s,e) over C02-style ranges vs in-place Flip of a clone and vs the model, operand unchanged; (c) ToDense/WriteDenseTo/DenseSize vs the model's bit vector; FromDense for word slices of lengths {0,1,1023,1024,1025,2047,2048,2049,random} with trailing partial chunk, all-zero chunks, >4096 and <=4096 bits per chunk, doCopy in {true,false}; for doCopy=false the words live in PROT_READ guard memory and the bitmap is then mutated (a write to the caller's words faults); FromBitSet/ToBitSet round trip. Non-trivial: non-empty operand; distinct = hash(set, form, argument).",
+		Rule:        "cases = (a) generated bitmaps (all chunk archetypes at low / middle / top keys, 11 storage forms) x offsets d in {0,+-1,+-65535,+-65536,+-65537,+-k*65536,+-(2^32-1),random in (-2^32,2^32)} for AddOffset/AddOffset64 with the operand's raw storage hashed before/after and the result probed by mutations; (b) static Flip(b,s,e) over C02-style ranges vs in-place Flip of a clone and vs the model, operand unchanged; (c) ToDense/WriteDenseTo/DenseSize vs the model's bit vector; FromDense for word slices of lengths {0,1,1023,1024,1025,2047,2048,2049,random} with trailing partial chunk, all-zero chunks, >4096 and <=4096 bits per chunk, doCopy in {true,false}; for doCopy=false the words live in PROT_READ guard memory and the bitmap is then mutated (a write to the caller's words faults); FromBitSet/ToBitSet round trip. Non-trivial: non-empty operand; distinct = hash(set, form, argument). Exhaustive sub-space: every dense word-slice length 0..2200 + edges (thorough 0..9000). DenseSize is checked on every operand and result of the offset and flip units.",
 		Assumptions: []string{"interval-set model validated by selfcheck", "Flip with end > 2^32 is a documented panic and not generated"},
 		Units: []Unit{
 			{Name: "addoffset", Quick: 6000, Thorough: 200000, Run: c16Offset},
